@@ -239,12 +239,16 @@ type stepFn func(h *hist) error
 
 type c37run struct {
 	h     *hist
-	marks []int // len(h.ops) after each step
+	marks []int               // len(h.ops) after each step
+	after func(h *hist) error // optional: runs after every step
 }
 
 func (r *c37run) apply(f stepFn) error {
 	err := f(r.h)
 	r.marks = append(r.marks, len(r.h.ops))
+	if err == nil && r.after != nil {
+		err = r.after(r.h)
+	}
 	return err
 }
 
@@ -281,6 +285,14 @@ type c37profile struct {
 	keys            [][]byte
 	nkeep           int
 	wDropAll        int
+	value           func(c *Ctx) []byte // nil = c37value
+}
+
+func (p *c37profile) val(c *Ctx) []byte {
+	if p.value != nil {
+		return p.value(c)
+	}
+	return c37value(c)
 }
 
 // genSteps generates the call sequence while executing it on the on-disk history hD
@@ -318,7 +330,7 @@ func c37generate(c *Ctx, p *c37profile, rd *c37run) ([]stepFn, error) {
 			nextT++
 			err = do(func(h *hist) error { h.begin(t, upd, at); return nil })
 		case r < 30:
-			t, k, v := ids[c.Rng.Intn(len(ids))], pickKey(), c37value(c)
+			t, k, v := ids[c.Rng.Intn(len(ids))], pickKey(), p.val(c)
 			meta, umeta, exp := byte(0), byte(c.Rng.Intn(3)), uint64(0)
 			switch c.Rng.Intn(8) {
 			case 0, 1:
@@ -396,7 +408,7 @@ func c37generate(c *Ctx, p *c37profile, rd *c37run) ([]stepFn, error) {
 			}
 			var calls []batchCall
 			for j := 0; j < n; j++ {
-				calls = append(calls, batchCall{Key: pickKey(), Val: c37value(c), UMeta: byte(c.Rng.Intn(3)), Del: c.Rng.Intn(5) == 0})
+				calls = append(calls, batchCall{Key: pickKey(), Val: p.val(c), UMeta: byte(c.Rng.Intn(3)), Del: c.Rng.Intn(5) == 0})
 			}
 			tb := nextT
 			var tn int
@@ -447,7 +459,19 @@ func c37generate(c *Ctx, p *c37profile, rd *c37run) ([]stepFn, error) {
 	return steps, err
 }
 
+// isReadLabel: labels whose observation must be equal in two runs of the same call sequence.
+// AllVersions iterations are left out: which old versions a compaction has already dropped
+// depends on the discard watermark, which the asynchronous watermark goroutine advances with
+// run-to-run timing (each run's own observation is still replayed by the model).
 func isReadLabel(l string) bool {
+	if strings.HasPrefix(l, "(Iterate ") {
+		if i := strings.Index(l, "(mkIO "); i >= 0 {
+			f := strings.Fields(l[i+6:])
+			if len(f) > 1 && f[1] == "true" {
+				return false
+			}
+		}
+	}
 	for _, p := range []string{"(Begin ", "(Modify ", "(Get ", "(Iterate ", "(Commit ", "(MaxVersion ", "(Discard ", "X:DropAll"} {
 		if strings.HasPrefix(l, p) {
 			return true
